@@ -3,6 +3,8 @@ use std::{
     sync::{Arc, atomic::AtomicI32},
 };
 
+#[cfg(feature = "verif")]
+use crate::verif_locks::Mutex;
 use lsp_server::{Connection, Message, Notification, RequestId, Response};
 use lsp_types::{
     ApplyWorkspaceEditParams, ApplyWorkspaceEditResponse, ConfigurationParams, MessageActionItem,
@@ -10,8 +12,6 @@ use lsp_types::{
     UnregistrationParams,
 };
 use serde::de::DeserializeOwned;
-#[cfg(feature = "verif")]
-use crate::verif_locks::Mutex;
 #[cfg(feature = "verif")]
 use tokio::{select, sync::oneshot};
 #[cfg(not(feature = "verif"))]
